@@ -318,3 +318,23 @@ fn h_s_window_counts_syn() {
     let end = out.iter().filter(|s| s.text.len() > 0).map(|s| s.header.seq.wrapping_add(s.text.len() as u32).wrapping_sub(b.snd.una)).max().unwrap_or(0);
     assert!(end <= b.snd.wnd as u32, "data reaches {end} octets beyond SND.UNA although the peer advertised a window of {}", b.snd.wnd);
 }
+
+//# id=witness.duplicate_text_is_reacknowledged props=C01,C03 kind=witness pair=tcb.Tcb.process_segment.processed_text_is_acknowledged_even_when_nothing_is_new
+// the acknowledgment of the last data segment is lost; the sender retransmits the segment: the receiver must acknowledge
+// again although none of the text is new, otherwise the sender's retransmission queue never drains
+#[cfg(vx_replay)]
+#[test]
+fn h_w_duplicate_text_is_reacknowledged() {
+    let (_, local, remote) = ids();
+    let mut tcb = established(4096);
+    let h = TcpHeaderBuilder::new(2000, 1000, 301).ack(101).wnd(4096).build(remote, local, [1u8, 2, 3, 4].into_iter(), 4).unwrap();
+    assert_eq!(tcb.segment_arrives(Segment::new(h, Message::new(vec![1u8, 2, 3, 4]))), SegmentArrivesResult::Ok);
+    assert_eq!(tcb.receive().len(), 4);
+    let acks = tcb.segments();
+    assert!(acks.iter().any(|s| s.header.ctl.ack() && s.header.ack == 305), "the text was not acknowledged");
+    // the same segment once more (its acknowledgment was lost)
+    assert_eq!(tcb.segment_arrives(Segment::new(h, Message::new(vec![1u8, 2, 3, 4]))), SegmentArrivesResult::Ok);
+    assert_eq!(tcb.receive().len(), 0, "a duplicate was delivered twice");
+    let acks = tcb.segments();
+    assert!(acks.iter().any(|s| s.header.ctl.ack() && s.header.ack == 305), "a duplicate whose acknowledgment was lost is not acknowledged again");
+}
